@@ -8,6 +8,7 @@ package main
 //
 //   TAssumeLeader b   the path lies behind a test of e.isLeader.Load() that came out b
 //   TAssumeRunDead    behind `if e.ctx != nil && e.ctx.Err() == nil { return ... }` (continuing side)
+//   TAssumeTerm b     behind a test of e.termCancel against nil that came out "is set" = b
 //   TSetLeader b      e.isLeader.Store(b)
 //   TCancelTerm       if e.termCancel != nil { e.termCancel() }
 //   TClearTerm        e.termCancel = nil
@@ -31,6 +32,7 @@ import (
 
 type tcState struct {
 	locked, deferred bool
+	ret              bool // the path has executed a return statement (of the function, or of a helper being inlined)
 	ops              []string
 	pos              string
 	termCancels      map[string]bool // idents bound to the cancel func of WithCancel(e.ctx)
@@ -51,6 +53,7 @@ type tcExec struct {
 	fn    string
 	recv  string
 	paths []tcPath
+	depth int // helpers of kvElection that touch the claim or the contexts are inlined (up to 3 deep)
 }
 
 type tcPath struct {
@@ -151,6 +154,9 @@ func (ex *tcExec) interesting(n ast.Node, withControl bool) bool {
 				found = true
 			}
 		case *ast.CallExpr:
+			if ex.helperCall(x) != nil {
+				found = true
+			}
 			if _, ok := ex.callOn(x, "isLeader", "Store"); ok {
 				found = true
 			}
@@ -199,6 +205,10 @@ func (ex *tcExec) walk(list []ast.Stmt, st tcState) []tcState {
 	for _, s := range list {
 		var next []tcState
 		for _, c := range cur {
+			if c.ret {
+				next = append(next, c)
+				continue
+			}
 			next = append(next, ex.stmt(s, c)...)
 		}
 		cur = next
@@ -244,6 +254,9 @@ func (ex *tcExec) stmt(s ast.Stmt, st tcState) []tcState {
 		if ex.callField(s.X, "termCancel") {
 			ex.op(&st, "TCancelTerm", s) // unguarded call: same effect when the field is set
 			return []tcState{st}
+		}
+		if out, ok := ex.inline(s.X, st); ok {
+			return out
 		}
 		if ex.interesting(s, false) {
 			ex.op(&st, "TUnknown", s)
@@ -297,13 +310,18 @@ func (ex *tcExec) stmt(s ast.Stmt, st tcState) []tcState {
 				return []tcState{st}
 			}
 		}
+		if len(s.Rhs) == 1 {
+			if out, ok := ex.inline(s.Rhs[0], st); ok {
+				return out
+			}
+		}
 		if ex.interesting(s, false) {
 			ex.op(&st, "TUnknown", s)
 		}
 		return []tcState{st}
 	case *ast.ReturnStmt:
-		ex.emit(&st)
-		return nil
+		st.ret = true
+		return []tcState{st}
 	case *ast.BlockStmt:
 		return ex.walk(s.List, st)
 	case *ast.IfStmt:
@@ -317,10 +335,66 @@ func (ex *tcExec) stmt(s ast.Stmt, st tcState) []tcState {
 			ex.op(&st, "TUnknown", s)
 		} else if ex.interesting(s, true) {
 			c := st.clone()
-			ex.emit(&c)
+			c.ret = true
+			return []tcState{c, st}
 		}
 		return []tcState{st}
 	}
+}
+
+// inline: a call <recv>.<helper>(...) of a kvElection method that touches the claim or the contexts, made while the lock
+// is held, is executed in place (its returns end the helper, not the path). Helpers that lock for themselves are their own
+// sections and are not inlined.
+// helperCall: c is <recv>.<M>(...) for a method M of kvElection that does not lock kvElection.mu itself and whose body
+// touches the claim or the contexts (directly or through further helpers, three deep at most); returns M's declaration.
+func (ex *tcExec) helperCall(c *ast.CallExpr) *ast.FuncDecl {
+	sel, ok := c.Fun.(*ast.SelectorExpr)
+	if !ok {
+		return nil
+	}
+	id, ok := sel.X.(*ast.Ident)
+	if !ok || id.Name != ex.recv {
+		return nil
+	}
+	fd, ok := ex.p.funcs["kvElection."+sel.Sel.Name]
+	if !ok || fd.Body == nil || ex.depth >= 3 {
+		return nil
+	}
+	h := &tcExec{p: ex.p, fn: ex.fn, recv: recvOf(fd), depth: ex.depth + 1}
+	if h.lockOps(fd.Body) || !h.interesting(fd.Body, false) {
+		return nil
+	}
+	return fd
+}
+
+func recvOf(fd *ast.FuncDecl) string {
+	if fd.Recv != nil && len(fd.Recv.List) == 1 && len(fd.Recv.List[0].Names) == 1 {
+		return fd.Recv.List[0].Names[0].Name
+	}
+	return "e"
+}
+
+func (ex *tcExec) inline(e ast.Expr, st tcState) ([]tcState, bool) {
+	c, ok := e.(*ast.CallExpr)
+	if !ok {
+		return nil, false
+	}
+	fd := ex.helperCall(c)
+	if fd == nil {
+		return nil, false
+	}
+	for _, a := range c.Args {
+		if ex.interesting(a, false) {
+			return nil, false
+		}
+	}
+	h := &tcExec{p: ex.p, fn: ex.fn, recv: recvOf(fd), depth: ex.depth + 1}
+	out := h.walk(fd.Body.List, st.clone())
+	ex.paths = append(ex.paths, h.paths...)
+	for i := range out {
+		out[i].ret = false
+	}
+	return out, true
 }
 
 func endsInReturn(b *ast.BlockStmt) bool {
@@ -362,6 +436,29 @@ func (ex *tcExec) ifStmt(s *ast.IfStmt, st tcState) []tcState {
 			return []tcState{st}
 		}
 	}
+	if ex.interesting(s.Cond, false) {
+		ex.op(&st, "TUnknown", s)
+	}
+	// any other test of e.termCancel against nil: the two sides know whether a term context is stored
+	if b, ok := s.Cond.(*ast.BinaryExpr); ok && (b.Op == token.NEQ || b.Op == token.EQL) && ex.sel(b.X, "termCancel") && st.locked {
+		if id, ok := b.Y.(*ast.Ident); ok && id.Name == "nil" {
+			yes, no := "TAssumeTerm true", "TAssumeTerm false"
+			if b.Op == token.EQL {
+				yes, no = no, yes
+			}
+			a := st.clone()
+			ex.op(&a, yes, s)
+			out := ex.walk(s.Body.List, a)
+			c := st.clone()
+			ex.op(&c, no, s)
+			if s.Else != nil {
+				out = append(out, ex.stmt(s.Else, c)...)
+			} else {
+				out = append(out, c)
+			}
+			return out
+		}
+	}
 	// if e.cancel != nil { e.cancel() }
 	if s.Else == nil && isNilTest(s.Cond, func(x ast.Expr) bool { return ex.sel(x, "cancel") }) && len(s.Body.List) == 1 {
 		if es, ok := s.Body.List[0].(*ast.ExprStmt); ok && ex.callField(es.X, "cancel") {
@@ -391,9 +488,9 @@ func (ex *tcExec) ifStmt(s *ast.IfStmt, st tcState) []tcState {
 				if c, ok := ex.callOn(r.X, "ctx", "Err"); ok && c != nil {
 					if id, ok := r.Y.(*ast.Ident); ok && id.Name == "nil" {
 						a := st.clone()
-						ex.walk(s.Body.List, a) // the returning side: no operation, ends the path
+						a.ret = true // the returning side: no operation, ends the path
 						ex.op(&st, "TAssumeRunDead", s)
-						return []tcState{st}
+						return []tcState{a, st}
 					}
 				}
 			}
@@ -482,6 +579,7 @@ func genTermCtx(p *pkgInfo) string {
 		}
 	}
 	sort.Strings(names)
+	_, entryMust, _ := analyseLocks(p)
 	var all []tcPath
 	for _, n := range names {
 		fd := p.funcs[n]
@@ -494,6 +592,11 @@ func genTermCtx(p *pkgInfo) string {
 		}
 		ex := &tcExec{p: p, fn: n, recv: recv}
 		if !ex.interesting(fd.Body, false) {
+			continue
+		}
+		if !ex.lockOps(fd.Body) && entryMust(n)["kvElection.mu"] == "W" {
+			// a helper that is only ever called with the lock held exclusively: part of its callers' sections (inlined there;
+			// a call that cannot be inlined makes the caller's path TUnknown)
 			continue
 		}
 		st := tcState{termCancels: map[string]bool{}}
